@@ -343,15 +343,32 @@ Definition pobs_of (blk : block) (id : N) (p : proposal) : option pobs :=
                          (p_msgs p) (p_ballots p))
   | None => None
   end.
-Fixpoint corr_props (blk : block) (l : amap N proposal) (o : list pobs) : bool :=
+(* the part of a proposal each property's correspondence compares (its own slice) *)
+Definition pobs_eqb_for (prop : N) (a b : pobs) : bool :=
+  match prop with
+  | 6 => (po_id a =? po_id b) && (po_total a =? po_total b) && list_eqb ballot_eqb (po_ballots a) (po_ballots b) &&
+         (po_proposer a =? po_proposer b)
+  | 15 => (po_id a =? po_id b) && opt_eqb dep_eqb (po_deposit a) (po_deposit b) && (po_proposer a =? po_proposer b)
+  | _ => pobs_eqb a b
+  end.
+Fixpoint corr_props (prop : N) (blk : block) (l : amap N proposal) (o : list pobs) : bool :=
   match l, o with
   | [], [] => true
   | (id, p) :: r, q :: r' =>
       match pobs_of blk id p with
-      | Some x => pobs_eqb x q && corr_props blk r r'
+      | Some x => pobs_eqb_for prop x q && corr_props prop blk r r'
       | None => true                     (* the status query of this proposal aborts (class D3): not comparable *)
       end
   | _, _ => false
+  end.
+
+(* acceptance of which operations belongs to which property's slice *)
+Definition owns_acceptance (prop : N) (o : op) : bool :=
+  match prop, o with
+  | 6, (Propose _ _ _ _ | Vote _ _) => true
+  | 6, _ => false
+  | 15, Vote _ _ => false
+  | _, _ => true
   end.
 
 Definition contract (prop : N) (ms : mstate) (starts : list (N * N)) (pre post : obs) (blk : block) (g : genv)
@@ -378,10 +395,10 @@ Fixpoint check_steps (prop : N) (self : N) (starts : list (N * N)) (i : N) (ms :
       let '(hok, out) := match calls with HCall _ _ h m :: _ => (h, m) | [] => (false, []) end in
       let hok_m := is_ok (step ms gv blk sender o) in
       let '(ms', ok_m) := tx ms gv blk self sender o (Bool.eqb ok hok) in
-      if negb (Bool.eqb hok hok_m) then known ++ [(i, 49)]
-      else if ok && negb ok_m then known ++ [(i, 49)]
-      else if negb (corr_props blk (proposals ms') (ob_props after)) then known ++ [(i, 50)]
-      else if hok && negb (list_eqb emsg_eqb out (match step ms gv blk sender o with Ok (_, m) => m | _ => [] end))
+      if negb (Bool.eqb hok hok_m) || (ok && negb ok_m) then (if owns_acceptance prop o then known ++ [(i, 49)] else known)
+      else if negb (corr_props prop blk (proposals ms') (ob_props after)) then known ++ [(i, 50)]
+      else if ((prop =? 5) || (prop =? 15)) && hok &&
+              negb (list_eqb emsg_eqb out (match step ms gv blk sender o with Ok (_, m) => m | _ => [] end))
            then known ++ [(i, 51)]
       else known ++ check_steps prop self starts (i + 1) ms' r
   end.
